@@ -35,6 +35,9 @@
 (*                                 behaviour: one state per round, branching on    *)
 (*                                 boundary ties)                                  *)
 (*      (interplin's index selection is a function: InterpRefines)                 *)
+(*  - round 4: every interpolation table is also exported RESCALED (abscissae by  *)
+(*    2^sx, values by 2^sv, exponents -40..40 from two more factors of the design) *)
+(*    and judged on the unscaled table through InterpScaleLaw;                     *)
 (*    and checked against the property-level definitions (…Refines);               *)
 (*  - DefsAgree: the integer-sum formulas used everywhere equal the textbook       *)
 (*    definitions written with exact rational arithmetic;                          *)
@@ -42,7 +45,9 @@
 (*    on the lattice (overflow is a TLC error).                                    *)
 EXTENDS Stats, Json
 
-CONSTANTS Kinds,        \* subset of {"wm", "wm2", "cl", "ip", "cv", "rp", "sc"}: families enumerated in this run
+CONSTANTS Kinds,        \* subset of {"wm", "wm2", "cl", "ip", "cv", "rp", "sc", "tk"}: families enumerated in this run
+          TkVariantBounds, \* FALSE: the clipping test of the code |x - m| < nsig s; TRUE: a deviating variant (both bounds
+                           \* m -+ nsig s rounded to the floating-point grid at m) used to show that TkRefines can fail
           RepFull,      \* family "rp": TRUE - full product (rep x rep x lattice) for wm / cl, FALSE - the design rows
           MinLen, MaxLen, Vals, Wts, MaxW,      \* wm : 1-d data/weights, total weight 1..MaxW
           MuNone,                                \* wm : TRUE - also enumerate supplied means (DefsAgree about them)
@@ -225,11 +230,12 @@ ScKSeq   == <<1, 2, 3, 341, 683, 1023, 1024, 1025, 1366, 1500, 2047, 2048, 2049,
 LaySeq   == <<"tile", "block", "shuffle">>
 ScWReps  == VRange(RepSeq) \cup {"f2"}          \* float16 holds every weight 0..32 of every lattice exactly (adapter: verified)
 
-\* orthogonal array of strength 2 with 5 factors of NRep levels and NRep^2 rows: row (a, b) = (b, a, a+b, a+2b, a+3b)
+\* orthogonal array of strength 2 with 7 factors of NRep levels and NRep^2 rows: row (a, b) = (b, a, a+b, a+2b, ..., a+5b)
+\* (factors 6, 7: the scale exponents of an interpolation case)
 DesignRows == 0..(NRep * NRep - 1)
 RowFacs(h) == LET g == h % (NRep * NRep)  a == g \div NRep  b == g % NRep
-              IN <<b, a, (a + b) % NRep, (a + 2 * b) % NRep, (a + 3 * b) % NRep>>
-FullFacs   == {<<i, j, k, 0, 0>> : i, j, k \in 0..(NRep - 1)}
+              IN <<b, a, (a + b) % NRep, (a + 2 * b) % NRep, (a + 3 * b) % NRep, (a + 4 * b) % NRep, (a + 5 * b) % NRep>>
+FullFacs   == {<<i, j, k, 0, 0, 0, 0>> : i, j, k \in 0..(NRep - 1)}
 \* factors -> the fields (1: first array, 2: second array, 3: lattice [ip: third array], 4, 5: ip lattices)
 RLData(f, mx) == LET l == LatFor(f[3] + 1, mx)
                      rx == RepFix(RepSeq[f[1] + 1], RepOKData(RepSeq[f[1] + 1], l), l.fit)
@@ -263,6 +269,15 @@ WithCl(x, w, hasw, ns, nit) == MkCl(x, w, hasw, ns, nit, RowFacs(3 * HSeq(x) + 7
                                     PrOf(5 * HSeq(x) + 11 * HSeq(w) + 7 * ns + (IF hasw THEN 3 ELSE 0)))
 MkIp(xs, vs, f) == LET rl == RLTable(f, VSeqMax(xs), VSeqMax(vs))
                    IN [op |-> "ip", xs |-> xs, vs |-> vs, us |-> IpQueries, rep |-> rl.rep, lat |-> rl.lat, vlat |-> rl.vlat]
+\* the same table RESCALED (round 4): abscissae (nodes, query points) by 2^sx, table values by 2^sv - exponents from factors
+\* 6, 7 of the design row; floating-point representations only (an integer type cannot hold 2^-30); with float32 among
+\* them half the exponent (products of two float32 differences stay inside its range)
+ExpSeq == <<-40, -35, -30, -27, -24, -20, -13, -10, -3, 2, 3, 10, 20, 27, 30, 35, 40>>              \* NRep of them
+FloatFix(r) == IF r \in IntReps THEN "f8" ELSE r
+MkIpS(xs, vs, f) == LET b  == MkIp(xs, vs, f)
+                        rp == [v |-> FloatFix(b.rep.v), x |-> FloatFix(b.rep.x), u |-> FloatFix(b.rep.u)]
+                        h  == IF "f4" \in {rp.v, rp.x, rp.u} THEN 2 ELSE 1
+                    IN [b EXCEPT !.rep = rp] @@ [sx |-> ExpSeq[f[6] + 1] \div h, sv |-> ExpSeq[f[7] + 1] \div h]
 MkCv(m, f)      == LET rl == RLCov(f, m) IN [op |-> "cv", m |-> m, rep |-> rl.rep, lat |-> rl.lat]
 \* scale cases: small lattices only (every partial sum of the large arrays is then exact in binary64, so that the
 \* tolerance "to rounding" of the small cases still applies); rw = the weight representation (any of ScWReps)
@@ -336,6 +351,50 @@ ClipFinish ==
     /\ phase = "cl" /\ (st.done \/ st.k = c.niter)
     /\ phase' = "cl_done" /\ UNCHANGED <<c, st>>
 
+\* ---- family "tk": clipping on a TICK lattice (round 4) -----------------------------------------------
+\* data (x + OFF) * unit, unit = the spacing of the floating-point numbers at OFF: binary64 integers above 2^52, binary64
+\* stamps near 2^30 s with ticks of 2^-22 s, float32 values above 2^23 (numbers: adapter, verified there against `spacing`)
+TickSeq == << [name |-> "tick-int53", reps |-> <<"f8", "i8", "u8", "f8be", "list", "strided", "reversed", "readonly">>],
+              [name |-> "tick-stamp", reps |-> <<"f8", "f8be", "readonly", "reversed", "strided", "f8", "list", "f8">>],
+              [name |-> "tick-f4",    reps |-> <<"f4", "f4", "f4", "f4", "f4", "f4", "f4", "f4">>] >>
+TkVals  == {0, 1, 6}          \* a cluster, one tick off, a gross outlier (longer inputs: cluster and ticks only)
+TickTol == <<32, 1>>          \* the computed mean is a lattice point within 32 ulp of the exact one
+MkTk(x, w, hasw, ns, nit, h) ==
+    LET t == TickSeq[(h % 3) + 1]
+    IN [op |-> "cl", x |-> x, w |-> w, hasw |-> hasw, nsn |-> NSigTable[ns][1], nsd |-> NSigTable[ns][2], niter |-> nit,
+        rep |-> [x |-> t.reps[((h \div 3) % 8) + 1], w |-> IF (h \div 24) % 2 = 0 \/ t.name = "tick-stamp" THEN "f8" ELSE "u1"],
+        lat |-> t.name, tol |-> TickTol, grid |-> TRUE, pr |-> PrOf(h)]
+ChooseTkX ==
+    /\ phase = "start" /\ "tk" \in Kinds
+    /\ \/ \E n \in 1..ClipMaxLen : \E x \in [1..n -> TkVals] : c' = [op |-> "cl", x |-> x]
+       \/ \E n \in (ClipMaxLen + 1)..(ClipMaxLen + 2) : \E x \in [1..n -> {0, 1}] : c' = [op |-> "cl", x |-> x]
+    /\ phase' = "tk_x" /\ UNCHANGED st
+ChooseTkW ==
+    /\ phase = "tk_x"
+    /\ \E hasw \in BOOLEAN : \E ns \in NSigIdx :
+       \E w \in (IF hasw THEN (IF Len(c.x) <= ClipMaxLenW THEN [1..Len(c.x) -> ClipWts] ELSE {}) ELSE {SOnes(Len(c.x))}) :
+          c' = MkTk(c.x, w, hasw, ns, ClipNiter, 3 * HSeq(c.x) + 7 * HSeq(w) + 13 * ns + (IF hasw THEN 5 ELSE 0))
+    /\ st' = [S |-> DOMAIN c.x, k |-> 0, done |-> FALSE, P |-> DOMAIN c.x]
+    /\ phase' = "tk"
+\* one round of the loop as floating-point arithmetic performs it on such a lattice: the computed mean j is a lattice
+\* point nearest the exact mean, the deviation is taken about it
+TkNear(S) == LET W == SSumW(c.w, S)  A == SSumWX(c.x, c.w, S) IN {j \in SGridMeans(c, S) : 2 * VAbs(j * W - A) <= W}
+\* (deviating variant: lo = fl(j - h), hi = fl(j + h) = j -+ r with r = h rounded to an integer; keeps lo < x < hi)
+TkBoundsKeep(S, j) == LET W == SSumW(c.w, S)  Q4 == 4 * c.nsn * c.nsn * SGridQ(c, S, j)
+                          r == CHOOSE rr \in 0..200 : /\ (rr = 0 \/ (2 * rr - 1) * (2 * rr - 1) * c.nsd * c.nsd * W <= Q4)
+                                                       /\ Q4 < (2 * rr + 1) * (2 * rr + 1) * c.nsd * c.nsd * W
+                      IN {i \in S : VAbs(c.x[i] - j) < r}
+TkStep ==
+    /\ phase = "tk" /\ ~st.done /\ st.k < c.niter
+    /\ \E j \in TkNear(st.S) :
+       \E T \in (IF TkVariantBounds THEN {TkBoundsKeep(st.S, j)} ELSE {SGridKeep(c, st.S, j) \cup X : X \in SUBSET SGridTies(c, st.S, j)}) :
+          st' = IF T = {} \/ T = st.S THEN [st EXCEPT !.done = TRUE, !.P = st.S]
+                ELSE [S |-> T, k |-> st.k + 1, done |-> FALSE, P |-> st.S]
+    /\ UNCHANGED <<phase, c>>
+TkFinish ==
+    /\ phase = "tk" /\ (st.done \/ st.k = c.niter)
+    /\ phase' = "tk_done" /\ UNCHANGED <<c, st>>
+
 \* ---- interpolation tables ------------------------------------------------------------
 ChooseNodes ==
     /\ phase = "start" /\ "ip" \in Kinds
@@ -344,7 +403,8 @@ ChooseNodes ==
     /\ phase' = "ip_x" /\ UNCHANGED st
 ChooseTabV ==
     /\ phase = "ip_x"
-    /\ \E vs \in [1..Len(c.xs) -> TabV] : c' = MkIp(c.xs, vs, RowFacs(3 * HSeq(c.xs) + 7 * HSeq(vs)))
+    /\ \E vs \in [1..Len(c.xs) -> TabV] : \E scaled \in BOOLEAN :
+          c' = IF scaled THEN MkIpS(c.xs, vs, RowFacs(5 * HSeq(c.xs) + 11 * HSeq(vs) + 1)) ELSE MkIp(c.xs, vs, RowFacs(3 * HSeq(c.xs) + 7 * HSeq(vs)))
     /\ phase' = "ip" /\ UNCHANGED st
 
 \* ---- covariance matrices ----------------------------------------------------------------
@@ -372,7 +432,7 @@ RpWmData == { << << <<0, 1, 3, 4>> >>, << <<1, 2, 8, 1>> >> >>,                 
 RpClData == { << <<3, 3, 4, 3, 2, 3, 6, 0>>, <<1, 1, 1, 1, 1, 1, 1, 1>>, FALSE, 3, 4 >>,      \* <<x, w, hasw, nsig index, niter>>
               << <<1, 2, 2, 1, 6>>, <<1, 2, 1, 8, 1>>, TRUE, 2, 4 >>,
               << <<0, 0, 1, 1, 2, 5, 11>>, <<1, 1, 1, 1, 1, 1, 1>>, FALSE, 2, 1 >> }
-RpIpData == { << <<0, 1, 3, 4>>, <<4, 0, 1, 1>> >>, << <<1, 2>>, <<0, 4>> >> }
+RpIpData == { << <<0, 1, 3, 4>>, <<4, 0, 1, 1>> >>, << <<1, 2>>, <<0, 4>> >>, << <<0, 1, 2, 6>>, <<0, 2, 4, 4>> >> }
 RpCvData == { << <<4, -2>>, <<-2, 9>> >>, << <<1, 1, 0>>, <<1, 4, 2>>, <<0, 2, 9>> >> }
 ChooseRpWm ==
     /\ phase = "start" /\ "rp" \in Kinds
@@ -434,7 +494,7 @@ ChooseScHuge ==
     /\ phase' = "sc" /\ UNCHANGED st
 ChooseRpIp ==
     /\ phase = "start" /\ "rp" \in Kinds
-    /\ \E d \in RpIpData : \E f \in RpRows : c' = MkIp(d[1], d[2], f)
+    /\ \E d \in RpIpData : \E f \in RpRows : \E scaled \in BOOLEAN : c' = IF scaled THEN MkIpS(d[1], d[2], f) ELSE MkIp(d[1], d[2], f)
     /\ phase' = "ip" /\ UNCHANGED st
 ChooseRpCv ==
     /\ phase = "start" /\ "rp" \in Kinds
@@ -444,8 +504,8 @@ ChooseRpCv ==
 NextExport == ChooseX1 \/ ChooseW1 \/ ChooseX2 \/ ChooseW2 \/ ChooseClipX \/ ChooseClipW
               \/ ChooseNodes \/ ChooseTabV \/ ChooseCovDiag \/ ChooseCovOff
               \/ ChooseRpWm \/ ChooseRpCl \/ ChooseRpIp \/ ChooseRpCv \/ ChooseRpPrWm \/ ChooseRpPrCl
-              \/ ChooseScX \/ ChooseScW \/ ChooseScRp \/ ChooseScHuge
-Next == NextExport \/ ChooseMu \/ MedStart \/ MedStep \/ MedDone \/ ClipStep \/ ClipFinish
+              \/ ChooseScX \/ ChooseScW \/ ChooseScRp \/ ChooseScHuge \/ ChooseTkX \/ ChooseTkW
+Next == NextExport \/ ChooseMu \/ MedStart \/ MedStep \/ MedDone \/ ClipStep \/ ClipFinish \/ TkStep \/ TkFinish
 
 Spec == Init /\ [][Next]_vars
 
@@ -512,6 +572,13 @@ ClipTolSound == phase = "cl" =>
                       /\ SClipKeepT(ct, S) \cap SClipFreeT(ct, S) = {}
        /\ st.k = 0 => /\ SClipFinalsT(c0) = SClipFinals(c)
                       /\ \A t \in {TolF4, TolBig} : SClipFinals(c) \subseteq SClipFinalsT([c EXCEPT !.tol = t])
+\* TICK lattice: every round of the floating-point mechanism is a round the specification allows (st.P: the set the last
+\* round started from), it stops only where the specification lets it stop; for nsig > 1 a round never discards everything
+TkRefines == phase \in {"tk", "tk_done"} =>
+    /\ st.P = st.S \/ SClipInSuccX(c, st.P, st.S)
+    /\ st.done => SClipStopsX(c, st.S)
+    /\ SGrid(c) /\ st.S # {} /\ TkNear(st.S) # {}
+    /\ (c.nsn > c.nsd /\ ~SClipConstant(c, st.S)) => \A j \in SGridMeans(c, st.S) : SGridKeep(c, st.S, j) # {}
 ClipShrinks  == [][(phase = "cl" /\ phase' = "cl") =>
                      (st'.S \subseteq st.S /\ (st'.S # st.S <=> st'.k = st.k + 1) /\ (st'.S # st.S => ~st.done))]_vars
 \* every reported subset has a defined, consistent set of statistics (exercises the formulas
@@ -523,7 +590,7 @@ ClipStatsDefined == phase = "cl_done" =>
 \* the (representation, lattice) design is pairwise covering; names are distinct; the attributes are consistent
 DesignCovers == phase = "start" =>
     /\ NLat = NRep /\ Cardinality(VRange(RepSeq)) = NRep /\ Cardinality({LatSeq[i].name : i \in 1..NLat}) = NLat
-    /\ \A j, k \in 1..5 : j < k => \A p, q \in 0..(NRep - 1) : \E h \in DesignRows : RowFacs(h)[j] = p /\ RowFacs(h)[k] = q
+    /\ \A j, k \in 1..7 : j < k => \A p, q \in 0..(NRep - 1) : \E h \in DesignRows : RowFacs(h)[j] = p /\ RowFacs(h)[k] = q
     /\ \A i \in 1..NLat : LET l == LatSeq[i] IN l.qfit \subseteq l.xfit /\ (l.fit \cup l.xfit \cup l.wfit \cup l.cfit) \subseteq IntReps
     /\ LatSeq[1].kmax >= 60 /\ LatSeq[1].ckmax >= 25
 \* what a case carries is admissible: the representation can hold the lattice, the tolerance is the lattice's
@@ -544,6 +611,14 @@ InterpRefines == phase = "ip" =>
     \A q \in DOMAIN c.us : /\ SInterpMech(c.xs, c.vs, c.us[q]) \in SInterpVals(c.xs, c.vs, c.us[q])
                            /\ Cardinality(SInterpVals(c.xs, c.vs, c.us[q])) = 1
 
+\* SCALE COVARIANCE: rescaling the abscissae leaves every interpolated value unchanged, rescaling the table values
+\* rescales it - the theorem by which a rescaled case (c.sx, c.sv) is judged on the unscaled table
+InterpScaleLaw == (phase = "ip" /\ "sx" \notin DOMAIN c) => \A f \in {<<2, 1>>, <<1, 3>>, <<3, 2>>} : SInterpScaleLaw(c.xs, c.vs, c.us, f[1], f[2])
+ScaleExpsOK == /\ phase = "start" => (Len(ExpSeq) = NRep /\ Cardinality(VRange(ExpSeq)) = NRep /\ 0 \notin VRange(ExpSeq))
+               /\ (phase = "ip" /\ "sx" \in DOMAIN c) => /\ {c.rep.v, c.rep.x, c.rep.u} \cap IntReps = {}
+                                                         /\ c.sx # 0 /\ c.sv # 0 /\ VAbs(c.sx) <= 40 /\ VAbs(c.sv) <= 40
+                                                         /\ ("f4" \in {c.rep.v, c.rep.x, c.rep.u} => (VAbs(c.sx) <= 20 /\ VAbs(c.sv) <= 20))
+
 \* cov/cor: the squared correlation of the definition reproduces the squared covariance
 CovSane == phase = "cv" =>
     LET n == Len(c.m)
@@ -552,10 +627,10 @@ CovSane == phase = "cv" =>
                           /\ (i = j => SCor2(c.m, i, j) = <<1, 1>>)
 
 \* ---- export -------------------------------------------------------------------------------
-Export == /\ (DoExport /\ phase \in {"wm", "wm2", "cl", "ip", "cv", "sc"}) => PrintT(<<"CASE", ToJson(c)>>)
+Export == /\ (DoExport /\ phase \in {"wm", "wm2", "cl", "ip", "cv", "sc", "tk"}) => PrintT(<<"CASE", ToJson(c)>>)
           /\ (DoExport /\ phase = "start") =>
                 PrintT(<<"OPTS", ToJson([mus |-> MuTable, nsigs |-> NSigTable, reps |-> RepSeq, lats |-> LatSeq,
-                                         tolbig |-> TolBig, tolf4 |-> TolF4,
+                                         tolbig |-> TolBig, tolf4 |-> TolF4, exps |-> ExpSeq, ticks |-> TickSeq, ticktol |-> TickTol,
                                          prs |-> [i \in 1..NPr |-> PrOf(i - 1)], screps |-> ScWReps, lays |-> LaySeq, scks |-> ScKSeq,
                                          \* which (representation, lattice) pairs are admissible, and the tolerance of each
                                          \* (lattice, float32 data?) - used by the adapter for its seeded larger cases
